@@ -366,11 +366,11 @@ class RPC:
                     # Error that prevented reply delivery
                     raise self._error
                 self._reply.parse()
-                if self._reply.error is not None and not self._device_handler.is_rpc_error_exempt(self._reply.error.message):
-                    # <rpc-error>'s [ RPCError ]
-
-                    if self._raise_mode == RaiseMode.ALL or (self._raise_mode == RaiseMode.ERRORS and self._reply.error.severity == "error"):
-                        errlist = []
+                # <rpc-error>'s [ RPCError ]; those the device handler declares exempt do not count
+                relevant = [err for err in self._reply.errors
+                            if not self._device_handler.is_rpc_error_exempt(err.message)]
+                if relevant:
+                    if self._raise_mode == RaiseMode.ALL or (self._raise_mode == RaiseMode.ERRORS and any(err.severity == "error" for err in relevant)):
                         errors = self._reply.errors
                         if len(errors) > 1:
                             raise RPCError(to_ele(self._reply._raw), errs=errors)
